@@ -79,15 +79,18 @@ def build(task):
     if task["harness"] == "geom":
         d, dh, sxs, smax = task["args"]
         cases = [(sx, sy) for sx in sxs for sy in range(1, smax + 1)]
+        # representative (first-path) sizes: small for most task groups, beyond float precision for the group starting at
+        # 5 slices (the sizes are unbounded symbolic integers either way; this only chooses where exploration starts)
+        dflt = (13, 7, 6, 4) if sxs[0] != 5 else ((1 << 53) + 1, (1 << 64) + 3, (1 << 53) + 5, (1 << 60) + 1)
 
         def h(ctx):
             i = ctx.concretize(ctx.sym_int("sel", 0, len(cases) - 1))
             nx, ny = cases[i]
             st = {
-                "luma_width": ctx.sym_int("lw", 1, None, default=13),
-                "luma_height": ctx.sym_int("lh", 1, None, default=7),
-                "color_diff_width": ctx.sym_int("cw", 1, None, default=6),
-                "color_diff_height": ctx.sym_int("ch", 1, None, default=4),
+                "luma_width": ctx.sym_int("lw", 1, None, default=dflt[0]),
+                "luma_height": ctx.sym_int("lh", 1, None, default=dflt[1]),
+                "color_diff_width": ctx.sym_int("cw", 1, None, default=dflt[2]),
+                "color_diff_height": ctx.sym_int("ch", 1, None, default=dflt[3]),
                 "dwt_depth": d, "dwt_depth_ho": dh, "slices_x": nx, "slices_y": ny,
             }
             extent_eqs = []
@@ -208,6 +211,9 @@ def replay(task, label, inputs, extra):
     if task["harness"] == "geom":
         d, dh, sxs, smax = task["args"]
         cases = [(sx, sy) for sx in sxs for sy in range(1, smax + 1)]
+        # representative (first-path) sizes: small for most task groups, beyond float precision for the group starting at
+        # 5 slices (the sizes are unbounded symbolic integers either way; this only chooses where exploration starts)
+        dflt = (13, 7, 6, 4) if sxs[0] != 5 else ((1 << 53) + 1, (1 << 64) + 3, (1 << 53) + 5, (1 << 60) + 1)
         nx, ny = cases[inputs["sel"]]
         st = {"luma_width": inputs["lw"], "luma_height": inputs["lh"], "color_diff_width": inputs["cw"], "color_diff_height": inputs["ch"],
               "dwt_depth": d, "dwt_depth_ho": dh, "slices_x": nx, "slices_y": ny}
